@@ -78,6 +78,88 @@ def do(w, op):
     return None
 
 
+# ---- object lifetime and the identity-keyed degree memo (GlobalCaches.tla, group "life") ----------
+TERMS = {'deep': 620, 'shallow': 60}
+LIFE_DEG = {7: 2, 8: 1}
+
+
+def build_deep(o, regime):
+    """7: loop-built sum of (c*x)**2 terms (every prefix has degree 2); 8: loop-built sum of (c*x)*2 (degree 1).
+    Both allocate the same number of BinaryOp nodes, so that a model built after another one was dropped
+    lands on the freed addresses."""
+    import optyx
+    x = optyx.Variable('x', lb=-3, ub=3)
+    acc = None
+    for i in range(TERMS[regime]):
+        t = (float(i % 7 + 1) * x) ** 2 if o == 7 else (float(i % 7 + 1) * x) * 2.0
+        acc = t if acc is None else acc + t
+    return acc
+
+
+def life_do(w, op, regime):
+    import gc
+    from optyx import analysis
+    kind, o = op
+    if kind == 'Build':
+        w.deep[o] = build_deep(o, regime)
+        return None
+    if kind == 'Drop':
+        del w.deep[o]
+        gc.collect()
+        return None
+    if kind == 'FillDeg':
+        import optyx
+        v = optyx.Variable('f')
+        keep = [v * float(i) + 1.0 for i in range(1100)]
+        for e in keep:
+            analysis.compute_degree(e)
+        return None
+    top = w.deep[o]
+    want = LIFE_DEG[o]
+    node, depth_from_top = top, 0
+    while True:
+        got = analysis.compute_degree(node)
+        if got != want:
+            return 'compute_degree of a degree-%d expression of %s returns %r (node %d below the top)' % (want, 'M' if o == 7 else 'N', got, depth_from_top)
+        nxt = getattr(node, 'left', None)
+        if nxt is None or getattr(node, 'op', None) != '+':
+            break
+        node, depth_from_top = nxt, depth_from_top + 1
+    if analysis.is_linear(top) != (want == 1):
+        return 'is_linear of a degree-%d expression of %s returns %r' % (want, 'M' if o == 7 else 'N', analysis.is_linear(top))
+    if top.degree != want:
+        return '.degree of a degree-%d expression of %s returns %r' % (want, 'M' if o == 7 else 'N', top.degree)
+    return None
+
+
+def life_text(h):
+    return ' ; '.join('%s(%s)' % (k, {7: 'M', 8: 'N'}.get(a, a)) for k, a in h)
+
+
+def replay_life_chunk(idx, hists):
+    part = {'violations': {}, 'counts': {}, 'evaluations': 0, 'traces_validated_against_impl': 0, 'nontrivial': set(),
+            'samples': [], 'extra': {}}
+    for h in hists:
+        text = life_text(h)
+        for regime in ('deep', 'shallow'):
+            w = World()
+            w.deep = {}
+            for i, op in enumerate(h):
+                d = life_do(w, op, regime)
+                part['evaluations'] += 1
+                if d:
+                    before = sorted(set('%s%s' % (k, {7: 'M', 8: 'N'}.get(a, '')) for k, a in h[:i]))
+                    pviolation(part, 'Degree(%s){%s} after {%s}' % ('M' if op[1] == 7 else 'N', regime, ','.join(before)), d.split(' returns')[0],
+                               {'history': text, 'regime': regime, 'step': i, 'detail': d})
+                    break
+            part['traces_validated_against_impl'] += 1
+            w.deep.clear()
+        part['nontrivial'].add(text)
+        if len(part['samples']) < 1:
+            part['samples'].append({'history': text})
+    return part
+
+
 def name(i):
     return {1: "M's parameter p", 2: "M's variable x", 3: "M's expression p*x + x**2", 4: "N's parameter p", 5: "N's variable x", 6: "N's expression p*x - x"}[i]
 
@@ -151,6 +233,30 @@ def fresh_reference():
     return json.loads(p.stdout.strip().splitlines()[-1])
 
 
+def life_histories(report, tier):
+    wd = tlc.workdir()
+    try:
+        r = tlc.run('GlobalCaches', cfg='GlobalCachesLife', wd=wd, dump=True, overrides={'MaxOps': 5 if tier == 'quick' else 6})
+        report.add_tlc(r)
+        hs = set()
+        for txt in tlaparse.iter_states(r.dump):
+            h = tuple(tuple(x) for x in tlaparse.parse_state(txt)['hist'])
+            # maximal interesting histories: end with a degree query that follows a drop
+            if h and h[-1][0] == 'Degree' and any(k == 'Drop' for k, _ in h):
+                hs.add(h)
+    finally:
+        tlc.cleanup(wd)
+    hs = sorted(hs)
+    report.extra['lifetime_histories_in_model'] = len(hs)
+    if tier == 'quick':
+        rng = common.rng('C14life')
+        nofill = [h for h in hs if not any(k == 'FillDeg' for k, _ in h)]
+        fill = [h for h in hs if any(k == 'FillDeg' for k, _ in h)]
+        hs = nofill[:] if len(nofill) <= 160 else rng.sample(nofill, 160)
+        hs += rng.sample(fill, min(40, len(fill)))
+    return [list(h) for h in hs]
+
+
 def run(report, tier):
     global _REF
     wd = tlc.workdir()
@@ -165,6 +271,7 @@ def run(report, tier):
                 hists.append(h)
     finally:
         tlc.cleanup(wd)
+    life = life_histories(report, tier)
     _REF = fresh_reference()
     report.extra['fresh_process_reference'] = _REF
     rng = common.rng('C14')
@@ -174,11 +281,16 @@ def run(report, tier):
     sample = without + rng.sample(with_fill, min(nf, len(with_fill)))
     for part in histrun.parallel(replay_chunk, sample, chunk=25):
         report.merge(part)
+    for part in histrun.parallel(replay_life_chunk, life, chunk=8):
+        report.merge(part)
     return report.finish(
         rule='GlobalCaches.tla (compile and gradient LRUs, capacity 2, leaves equal by name, bare parameters bypass the cache) model-checked '
              'exhaustively for C14_NoCrossTalk. Every history of cache operations of the model (compile / gradient-compile on two models M and N '
              'that share the names p and x with different values and bounds, fillers overflowing the real capacities 1024 / 4096) is replayed: '
              'each operation\'s callable must read its own model\'s parameter; afterwards the observations on M (value, parameter, gradient, '
              'Hessian, degree, NLP and LP solve) must equal those computed in a fresh interpreter process. All histories without fillers, a '
-             'seeded sample of those with fillers.',
+             'seeded sample of those with fillers. Object lifetime (group "life" of the same module, C14_DegreeOwn): every history of Build / '
+             'Degree / Drop / FillDeg over a quadratic and a linear model in which a degree is asked after some model was dropped is replayed with '
+             'deep (>= 400 levels, iterative path) and shallow loop-built objectives allocated so that a later model reuses the addresses of a '
+             'collected one; compute_degree of every prefix node, is_linear and .degree must be the expression\'s own.',
         exhaustive=False)
